@@ -222,7 +222,7 @@ Qed.
 Inductive trace (c : cfg) (st0 : cstate) : cstate -> list N -> list N -> list N -> Prop :=
 | tr_init : trace c st0 st0 [] [] []
 | tr_step st ins cbs ls l st' o :
-    trace c st0 st ins cbs ls -> label_cf0 l -> no_lost_delete c st l -> cstep c st l = StepOk st' o ->
+    trace c st0 st ins cbs ls -> label_cf0 l -> cstep c st l = StepOk st' o ->
     trace c st0 st' (ins ++ incoming c st l) (cbs ++ cb_vals (o_cbs o)) (ls ++ lost c st l).
 
 Lemma trace_reach c st0 st ins cbs ls : trace c st0 st ins cbs ls -> reach_cf c st0 st.
@@ -230,7 +230,7 @@ Proof. induction 1; [constructor|econstructor; eassumption]. Qed.
 
 Lemma reach_cf_StoreND c mc t now st : reach_cf c (cinit c mc t now) st -> StoreND st.
 Proof.
-  induction 1 as [|st l st' o R IH L NL S]; [unfold StoreND, cinit; sproj; constructor|].
+  induction 1 as [|st l st' o R IH L S]; [unfold StoreND, cinit; sproj; constructor|].
   eapply StoreND_step; eassumption.
 Qed.
 
@@ -243,7 +243,7 @@ Theorem values_are_conserved c mc t now st ins cbs ls x :
   trace c (cinit c mc t now) st ins cbs ls ->
   cnt ins x = cnt (held st ++ cbs ++ ls) x.
 Proof.
-  intros T. induction T as [|st ins cbs ls l st' o T IH L NL S].
+  intros T. induction T as [|st ins cbs ls l st' o T IH L S].
   - reflexivity.
   - pose proof (trace_reach _ _ _ _ _ _ T) as R. destruct (reach_cf_inv _ _ _ _ _ R) as (A & _).
     pose proof (token_step c st l st' o x (reach_cf_StoreND _ _ _ _ _ R) (Agree_admit_absent st A) S) as TS.
